@@ -517,6 +517,34 @@ class Lit:
         kl, kr, op, st = e
         return '(mkE %s %s %s %s)' % (self.key(kl), self.key(kr), z(self.op(op)), self.c(st))
 
+    # ---- tuple keys of MultiCouplingTerms.add_to_graph as kleft / kright of their triples (Model/AutomatonMulti.v)
+    def triples(self, flat):
+        ts = [flat[n:n + 3] for n in range(0, len(flat), 3)]
+        return '[' + '; '.join('(%d%%nat, %s, %s)' % (int(i), z(self.op(str(a))), z(self.op(str(s))))
+                               for i, a, s in reversed(ts)) + ']'
+
+    def key_m(self, k):
+        if k == 'IdL' or k == 'IdR':
+            return k
+        if isinstance(k, list) and k[0] == 'left':
+            return '(kleft %s)' % self.triples(k[1:])
+        if isinstance(k, str) and k.startswith('K:('):
+            import ast
+            import re
+            try:
+                t = ast.literal_eval(re.sub(r'np\.\w+\((-?\d+)\)', r'\1', k[2:]))
+            except Exception:
+                t = None
+            if isinstance(t, tuple) and len(t) % 3 == 1 and len(t) >= 4 and t[0] in ('left', 'right'):
+                return '(%s %s)' % ('kleft' if t[0] == 'left' else 'kright', self.triples(list(t[1:])))
+        self.ok = False
+        return '(Oth 0)'
+
+    def graph_m(self, sites):
+        return '[' + '; '.join('[' + '; '.join(
+            '(mkE %s %s %s %s)' % (self.key_m(kl), self.key_m(kr), z(self.op(op)), self.c(st))
+            for kl, kr, op, st in es) + ']' for es in sites) + ']'
+
     def graph(self, sites):
         return '[' + '; '.join('[' + '; '.join(self.edge(e) for e in es) + ']' for es in sites) + ']'
 
@@ -862,7 +890,7 @@ def check_case(ctx, case, r, fam_store):
 
 def coq_cases_for(case, r, geo):
     """literals for check_build / check_denote from the implementation's graph, grids and containers"""
-    out = {'build': None, 'denote': [], 'why_skipped': None}
+    out = {'build': None, 'build_multi': None, 'denote': [], 'why_skipped': None}
     if 'graph' not in r or 'onsite' not in r:
         out['why_skipped'] = 'no graph'
         return out
@@ -890,6 +918,18 @@ def coq_cases_for(case, r, geo):
         g3 = lit3.graph(r['graph'])
         if lit3.ok:
             out['build'] = '(%d%%nat, %s, %s, %s)' % (L, ots, cts, g3)
+    if (r['finite'] and r.get('multi') is not None and not r['exp']['exp'] and not r['exp']['centered']
+            and all('left' in t and t.get('shift') == 0 for t in r['multi'])):
+        # MultiCouplingTerms.add_to_graph: the Coq model add_mterm rebuilds the graph from the stored form
+        lit4 = Lit()
+        ots = '[' + '; '.join('mkOT %d%%nat %s %s' % (i, z(lit4.op(op)), lit4.c(st)) for i, op, st in r['onsite']) + ']'
+        mts = '[' + '; '.join('mkMT %s %s %d%%nat %s %s' % (
+            '[' + '; '.join('(%d%%nat, %s, %s)' % (i, z(lit4.op(a)), z(lit4.op(s))) for i, a, s in t['left']) + ']',
+            '[' + '; '.join('(%d%%nat, %s, %s)' % (i, z(lit4.op(a)), z(lit4.op(s))) for i, a, s in t['right']) + ']',
+            t['sw'], z(lit4.op(t['op_sw'])), lit4.c(t['strength'])) for t in r['multi']) + ']'
+        g4 = lit4.graph_m(r['graph'])
+        if lit4.ok:
+            out['build_multi'] = '(%d%%nat, %s, %s, %s)' % (L, ots, mts, g4)
     return out
 
 
@@ -935,6 +975,7 @@ def main(ctx):
     # ---- oracle + literals
     fam_store = {}
     build_cases, build_idx, den_cases, den_idx = [], [], [], []
+    bm_cases, bm_idx = [], []
     skipped = {}
     for idx, (case, r) in enumerate(zip(cases, results)):
         if r is None:
@@ -953,6 +994,9 @@ def main(ctx):
         if lits['build']:
             build_cases.append(lits['build'])
             build_idx.append(idx)
+        if lits['build_multi']:
+            bm_cases.append(lits['build_multi'])
+            bm_idx.append(idx)
         for d in lits['denote']:
             den_cases.append(d)
             den_idx.append(idx)
@@ -965,23 +1009,31 @@ def main(ctx):
             ('c10_build', 'check_build', build_cases, build_idx,
              'Coq model of MPOGraph.from_terms (Model/Automaton.v) does not rebuild the implementation\'s graph / graph is not well formed / '
              'graph does not denote the container terms'),
+            ('c10_build_multi', 'check_build_multi', bm_cases, bm_idx,
+             'Coq model of MultiCouplingTerms.add_to_graph (Model/AutomatonMulti.v) does not rebuild the implementation\'s graph / '
+             'graph does not denote the stored multi-site terms'),
             ('c10_denote', 'check_denote', den_cases, den_idx,
              'the verified denotation of the implementation\'s MPO graph (or grids) differs from the normal form of its own term containers')):
         if not cs:
             continue
-        bad, err = common.coq_failing_indices(name, ['Base.Prelude', 'Model.Automaton'], checker, cs, shard=150)
+        mods = ['Base.Prelude', 'Model.Automaton'] + (['Model.AutomatonMulti'] if name == 'c10_build_multi' else [])
+        bad, err = common.coq_failing_indices(name, mods, checker, cs, shard=150)
         if err:
             ctx.fail('correspondence', 'model evaluation failed: ' + err[-600:], None)
         for b in bad[:5]:
             ctx.fail('correspondence', what, {'stream': name, 'case': cases[ids[b]], 'literal': cs[b][:3000]})
         for i, _ in enumerate(cs):
             ctx.count(name, [name, ids[i], i], nontrivial=True)
-    ctx.cov['traces_validated_against_impl'] = len(build_cases) + len(den_cases)
+    ctx.cov['traces_validated_against_impl'] = len(build_cases) + len(bm_cases) + len(den_cases)
+    ctx.cov['c10_build_multi_cases'] = len(bm_cases)
     ctx.cov['coq_skipped'] = skipped
     ctx.assumptions += [
         'C10 model: operators are formal words over operator NAMES (no algebraic relations between named operators); the dense oracle covers the matrices',
-        'C10 not modelled in Coq: multi-site couplings and exponentially decaying terms (construction), infinite boundary conditions (construction; '
-        'their graphs are denoted on an unrolled window), H_bond, charges of virtual legs, group_sites/extract_segment (dense oracle only)',
+        'C10 Coq models of exponentially decaying terms (Model/ExpDecay.v) and of H_bond (Model/BondSum.v) are proved but not executed against '
+        'the implementation (their graphs / bond arrays are covered by c10_denote and the dense oracle); the invariant mwf of multi-site '
+        'graphs is a Prop and is not evaluated on implementation data',
+        'C10 not modelled in Coq: infinite boundary conditions (construction; '
+        'their graphs are denoted on an unrolled window), charges of virtual legs, group_sites/extract_segment (dense oracle only)',
         'local operator matrices and Jordan-Wigner flags are taken from tenpy.networks.site (property C12)',
     ]
     return ctx.finish(RULE, 'theorems of coq/Props/C10.v about the automaton model; model tied to MPOGraph.from_terms by rebuilding the '
@@ -992,4 +1044,4 @@ def main(ctx):
 RULE = ('models: random coupling models (chain/ladder/square/triangular/honeycomb, open/periodic/infinite, spin/boson/fermion/mixed sites, '
         'integer/Gaussian/float/complex scalar and site-dependent strengths, all add_* calls, plus_hc x explicit_plus_hc x manual h.c., '
         'sort_mpo_legs, group_sites, extract_segment, enlarge_mps_unit_cell), non-trivial when at least one term lies in the window; '
-        'predefined: every model class of tenpy.models x parameter sets x conserve options; c10_build / c10_denote: Coq evaluations.')
+        'predefined: every model class of tenpy.models x parameter sets x conserve options; c10_build / c10_build_multi / c10_denote: Coq evaluations.')
